@@ -3,6 +3,7 @@
 package main
 
 import (
+	"encoding/json"
 	"flag"
 	"fmt"
 	"os"
@@ -49,6 +50,11 @@ func run(prop, tier, verifDir string, seed int64, dump string) (code int) {
 		for _, n := range ana.ListFuncs(p) {
 			fmt.Println(n)
 		}
+		return 0
+	}
+	if dump == "@locals" {
+		js, _ := json.MarshalIndent(ana.ListLocals(p), "", " ")
+		fmt.Println(string(js))
 		return 0
 	}
 	if dump == "@norm" {
